@@ -91,6 +91,8 @@ fn decode(attr: &Arc<Vec<packet::Attribute>>) -> (u32, u32, u32) {
                 tok = v & 0xffff;
             } else if v >> 16 == 2 {
                 src = v & 0xffff;
+            } else if v == 0x0003_0001 {
+                tok += 100; // tagged by export policy 1 (the token community precedes it)
             }
         }
     }
@@ -185,6 +187,31 @@ fn reject_policy(cond: table::Condition) -> Arc<table::PolicyAssignment> {
     });
     Arc::new(table::PolicyAssignment {
         name: Arc::from("a"),
+        disposition: table::Disposition::Accept,
+        policies: vec![p],
+        needs_rpki: false,
+    })
+}
+
+fn tag_policy() -> Arc<table::PolicyAssignment> {
+    let st = Arc::new(table::Statement {
+        name: Arc::from("tag"),
+        conditions: vec![],
+        disposition: Some(table::Disposition::Accept),
+        actions: table::Actions {
+            community: Some(table::CommunityAction {
+                action_type: table::CommunityActionType::Add,
+                communities: vec![0x0003_0001],
+            }),
+            ..Default::default()
+        },
+    });
+    let p = Arc::new(table::Policy {
+        name: Arc::from("tagp"),
+        statements: vec![st],
+    });
+    Arc::new(table::PolicyAssignment {
+        name: Arc::from("taga"),
         disposition: table::Disposition::Accept,
         policies: vec![p],
         needs_rpki: false,
@@ -430,6 +457,19 @@ async fn run(case: &Val) -> Val {
                 }
                 let e = w.conn.pending.get(&FAM).map(|p| p.is_empty()).unwrap_or(true);
                 out.push(Val::L(vec![Val::n(5), Val::b(e)]));
+            }
+            9 => {
+                let p = if op.at(1).u32() == 0 {
+                    if cfg.at(5).bool() {
+                        Some(reject_policy(table::Condition::Origin(2)))
+                    } else {
+                        None
+                    }
+                } else {
+                    Some(tag_policy())
+                };
+                w.conn.state.export_policy.store(p);
+                out.push(Val::L(vec![Val::n(8)]));
             }
             8 => {
                 // session end: the real unregister_peer; the session's per-connection state is
